@@ -10,11 +10,15 @@ VERIF = os.path.dirname(HERE)
 REPO = os.environ.get("VERIF_REPO", "/repo")
 
 ENGINES = {
+    "C01": "cli:C01",
+    "C02": "cli:C02",
+    "C09": "cli:C09",
     "C12": "pool",
     "C20": "history",
 }
 MODULES = {
     "pool": "annetsim.engines.pool",
+    "cli": "annetsim.engines.cli",
     "history": "annetsim.engines.history",
 }
 
